@@ -202,6 +202,10 @@ class Report:
         self.notes = []
         self.props = None
         self.known = [f for f in load_known_findings()["findings"] if f["property"] == pid and f.get("status", "open") == "open"]
+        try:
+            quiet_logging()
+        except Exception:  # noqa: BLE001
+            pass
 
     def count(self, key, n=1):
         self.counts[key] = self.counts.get(key, 0) + n
